@@ -3,6 +3,7 @@ package props
 import (
 	"fmt"
 	"math"
+	"strconv"
 	"strings"
 	"time"
 
@@ -276,4 +277,36 @@ func c14NonDyadicCopyShards(tier string) []mc.Shard {
 		}})
 	}
 	return shards
+}
+
+// countLastBitsOnly is the history predicate of the known finding of C14: the two
+// observations quoted in the violation are identical except for the last bits of
+// count= (at most 4 ulps). It names exactly this failure: the buffered paginated
+// store computes its total as len(buffer) + sum(pages) on every call, so when a
+// read compacts the buffer the same bins are summed in another order.
+func countLastBitsOnly(v mc.Violation) bool {
+	var rest []string
+	var counts []float64
+	for _, line := range strings.Split(v.Detail, "\n") {
+		i := strings.Index(line, "count=")
+		if i < 0 {
+			continue
+		}
+		obs := line[i+len("count="):]
+		j := strings.IndexByte(obs, ' ')
+		if j < 0 {
+			return false
+		}
+		c, err := strconv.ParseFloat(obs[:j], 64)
+		if err != nil {
+			return false
+		}
+		counts = append(counts, c)
+		rest = append(rest, obs[j:])
+	}
+	if len(counts) != 2 || rest[0] != rest[1] || counts[0] == counts[1] {
+		return false
+	}
+	m := math.Max(math.Abs(counts[0]), math.Abs(counts[1]))
+	return math.Abs(counts[0]-counts[1]) <= 4*math.Ldexp(m, -52)
 }
